@@ -5,7 +5,6 @@ from typing import Any, Callable
 from . import errno
 from pycoin.coins.SolutionChecker import ScriptError
 
-from .flags import VERIFY_MINIMALDATA
 
 
 def do_OP_VERIFY(vm: Any) -> None:
@@ -211,11 +210,7 @@ def do_OP_NOT(vm: Any) -> None:
 
 
 def do_OP_0NOTEQUAL(vm: Any) -> None:
-    vm.push_int(
-        vm.bool_from_script_bytes(
-            vm.pop(), require_minimal=vm.flags & VERIFY_MINIMALDATA
-        )
-    )
+    vm.push_int(int(pop_check_bounds(vm) != 0))
 
 
 """
